@@ -14,7 +14,8 @@ Checks(e) ==
   LET n == e.total  q == QuorumNoOverflow(n)  f == Faults(n) IN
   (IF e.q_consensus = q /\ e.q_mempool = q THEN {} ELSE {<<"C17.Threshold", l>>}) \cup
   (IF e.q_consensus = e.q_mempool THEN {} ELSE {<<"C17.CratesAgree", l>>}) \cup
-  (IF e.q_consensus \in 1..n /\ 3 * (e.q_consensus - n \div 3 - n \div 3) > 2 * (n % 3) /\ e.q_consensus <= n - f THEN {} ELSE {<<"C17.Bounds", l>>}) \cup
+  \* 3q > 2n  <=>  q > floor(2n/3), written without products that overflow TLC's 32-bit integers whatever value the code returned
+  (IF e.q_consensus \in 1..n /\ e.q_consensus > (n \div 3) * 2 + ((n % 3) * 2) \div 3 /\ e.q_consensus <= n - f THEN {} ELSE {<<"C17.Bounds", l>>}) \cup
   (IF e.lookup_consensus = e.stakes /\ e.lookup_mempool = e.stakes THEN {} ELSE {<<"C17.StakeLookup", l>>}) \cup
   (IF \A i \in 1..Len(e.unknown) : e.unknown[i] = 0 THEN {} ELSE {<<"C17.UnknownHasZeroStake", l>>}) \cup
   \* C09: one leader per round, a committee member, the same from every insertion order (derived from the committee alone) ...
